@@ -98,6 +98,43 @@ def r11(facts, res):
         res.ok(R, 'start-item', loc_of(b, bb), 'state 0 = {(start_prod, 0)} with context {EOF}')
 
 
+def scan_closure_ok(facts, clo):
+    """The element closure of `suffix.iter().all(..)`: a token stops the scan (answers false), a rule lets it go on exactly when it is
+    nullable (answers is_epsilon_set of that same rule).  Returns a complaint or None."""
+    if clo[0] != 'closure' or facts.bodies.get(clo[1]) is None:
+        return 'cannot read the closure that scans the symbols behind the rule'
+    cb = facts.bodies[clo[1]]
+    sym = facts.adt('cfgrammar::Symbol')
+    dv = {v['name']: v['discr'] for v in sym['variants']} if sym else {}
+    seen = set()
+    for p in Walker(cb, facts, max_paths=64).run():
+        if p.end[0] != 'return':
+            continue
+        kind = [v for c, v in p.conds if c[0] == 'discr' and isinstance(v, int) and term_has(c[1], lambda x: x == ('param', 2))]
+        if not kind:
+            return 'the scanning closure answers without looking at the symbol'
+        r = p.end[1]
+        if kind[0] == dv.get('Token'):
+            seen.add('Token')
+            if r != ('const', 0):
+                return 'the scan of the symbols behind the rule does not stop at a token'
+        elif kind[0] == dv.get('Rule'):
+            seen.add('Rule')
+            eps = [(c, v) for c, v in p.conds if is_call(c, 'is_epsilon_set')]
+            if is_call(r, 'is_epsilon_set'):
+                e = r
+            elif eps and r == ('const', eps[0][1]):
+                e = eps[0][0]
+            else:
+                return 'for a rule behind the dot the scan does not go on exactly when that rule is nullable'
+            firsts = [ev for ev in p.calls(name='firsts')]
+            if firsts and strip_ref(firsts[0][3][1]) != strip_ref(e[2][1]):
+                return 'nullable() is asked of a different rule than the one whose FIRST set is merged'
+    if seen != {'Token', 'Rule'}:
+        return 'the scanning closure does not treat both tokens and rules'
+    return None
+
+
 def r12(facts, res):
     R = 'R1.2'
     b = one_fn(facts, R, res, 'lrtable::itemset::Itemset::close')
@@ -120,6 +157,7 @@ def r12(facts, res):
     bad = []
     n = 0
     nadd = 0
+    all_terms = set()
     for p in exp:
         n += 1
         # the item being expanded: (pidx, dot) as used by prod(grm, pidx) / prod_len / index
@@ -130,10 +168,23 @@ def r12(facts, res):
         pidx = strip_ref(prods[0][3][1])
         # (a) suffix starts at dot + 1
         skips = [e for e in p.calls(name='skip')]
-        if len(skips) != 1:
+        if not skips:
+            # the same scan as an iterator adaptor: prod[dot + 1..].iter().all(|sym| ..) with the element transfer in the closure
+            alls = [e for e in p.calls(name='all') if term_has(e[3][0], lambda x: is_call(x, 'prod'))]
+            rf = [x for e in alls for x in subterms(e[3][0]) if isinstance(x, tuple) and x and x[0] == 'variant' and x[3] == 'RangeFrom'] if len(alls) == 1 else []
+            if len(rf) != 1:
+                bad.append('the lookahead is not computed from `prod.iter().skip(..)` or `prod[..].iter().all(..)`')
+                continue
+            why = scan_closure_ok(facts, alls[0][3][1])
+            if why:
+                bad.append(why)
+            all_terms.add(alls[0][5])
+            sk = rf[0][4][0]
+        elif len(skips) != 1:
             bad.append('the lookahead is not computed from `prod.iter().skip(..)` (%d skip calls)' % len(skips))
             continue
-        sk = skips[0][3][1]
+        else:
+            sk = skips[0][3][1]
         if sk[0] == 'bin' and sk[1] == 'Add' and sk[2] == ('const', 1):
             sk = ('bin', 'Add', sk[3], sk[2])
         if not (sk[0] == 'bin' and sk[1] == 'Add' and sk[3] == ('const', 1)):
@@ -177,6 +228,8 @@ def r12(facts, res):
     # (c'') the item's own context is passed on exactly on the paths on which the suffix scan ran to the END of the production
     # (every symbol behind the rule was nullable); a path that left the scan early (a token, a non-nullable rule) must not
     def exhausted(p):
+        if any(c in all_terms and v == 1 for c, v in p.conds):
+            return True         # all(..) over the suffix answered true: no symbol stopped the scan
         return any(c[0] == 'discr' and is_call(c[1], 'next') and 'skip' in c[1][1].lower() and v == 0 for c, v in p.conds)
     for p in exp:
         if not any(e[0] == 'call' and e[2] and e[2]['name'] == 'add' and 'Itemset' in e[2]['path'] for e in p.events):
